@@ -62,11 +62,11 @@ func castFor(kind string) []string {
 	case "int32", "sint32", "sfixed32":
 		return []string{"MyInt32", "DurationMs"}
 	case "int64", "sint64", "sfixed64":
-		return []string{"MyInt64", "Duration", "time.Duration"}
+		return []string{"MyInt64", "Duration", "time.Duration", "int"} // "int": a predeclared Go type as cast type
 	case "uint32", "fixed32":
 		return []string{"MyUint32"}
 	case "uint64", "fixed64":
-		return []string{"MyUint64"}
+		return []string{"MyUint64", "uint"}
 	case "float":
 		return []string{"MyFloat32"}
 	case "double":
